@@ -164,6 +164,11 @@ impl Property for C04 {
                 }
             }
         }
+        if rng.chance(1, 60) && !input.is_empty() && !near_strlen {
+            // bytes that mean something to other programs at the start of a file
+            let magic: Vec<u8> = rng.pick(MAGIC_PREFIXES).iter().copied().filter(|b| Some(*b) != delim).collect();
+            input.splice(0..0, magic);
+        }
         sc.input = B(input);
         match mode {
             1 => sc.opts.push(Opt::Null),
